@@ -17,6 +17,8 @@ import traceback
 
 sys.path.insert(0, os.path.dirname(os.path.abspath(__file__)))
 import common as C  # noqa: E402
+import logging  # noqa: E402
+logging.disable(logging.CRITICAL)
 
 
 def registry():
